@@ -94,6 +94,7 @@ import (
 	"github.com/llir/llvm/ir/constant"
 	"github.com/llir/llvm/ir/metadata"
 	"github.com/llir/llvm/ir/types"
+	"github.com/llir/llvm/verifhook"
 	"github.com/pkg/errors"
 )
 
@@ -284,6 +285,7 @@ func (gen *generator) addAttrGroupDefsToModule() {
 func (gen *generator) addNamedMetadataDefsToModule() {
 	// 8e. Add IR named metadata definitions to the IR module.
 	for name, def := range gen.new.namedMetadataDefs {
+		verifhook.Visit("addNamedMetadataDefsToModule", name)
 		gen.m.NamedMetadataDefs[name] = def
 	}
 }
